@@ -175,7 +175,7 @@ def check(tier, seed):
     R = Runner('C20', tier, seed)
     try:
         R.run_all(witnesses(tier, seed), [Config(isa) for isa in ALL_ISAS], chunk=50)
-        return finish('C20', tier, seed, R, 'proof',
+        return finish('C20', tier, seed, R, 'other',
                       rule='(i) an operation applied through TensorMap<T,...>(buf) over a raw buffer that is only alignof(T)-aligned must leave the buffer in exactly the state plain element-wise loops leave it in (writes through the map, maps as operands, reductions and matmul over maps); every alignment-requiring access to the buffer is a violation, which decides all 64 misalignments at once; (ii) reshape/flatten/squeeze: a fixed interleaving of writes through the returned map and through the source tensor must equal the same sequence on one flat array (the map aliases the source storage); (iii) tocolumnmajor places element (i0..ik) at the column-major offset, torowmajor is its inverse, both compositions are the identity copy map — all shapes with extents <= 3 (thorough 4) of ranks 1-4 plus larger shapes; (iv) constructors from a raw buffer (row- and column-major), std::array and nested initializer lists store the given values row-major (copy-flow).',
                       trusted=['clang-14 front end and -O2 code generation', 'LLVM IR semantics as modelled by irflow', 'x86 lane table', 'offset oracles in gen/c20.py'],
                       floors=load_floors('C20', tier), assumptions=['construction from std::vector is not analysed (the vector object is not a flat region)', 'random operation sequences are replaced by a fixed interleaving of five operations'])
